@@ -9,6 +9,13 @@ package main
 //	prunex <hex> ...   the same in a child process (the harness re-executes itself), so that an unrecoverable runtime
 //	                   failure is observed as outcome `crash` instead of killing the run
 //
+//	decbig <shape> <n>   CreateNode on a LARGE input built from (shape, n) on both sides (n = 10^5 .. 10^6): leaf / branch /
+//	                   extension / value node with an n-byte value, n separators, an n-character path / child field / key,
+//	                   no separator at all -> "ok <len of Encode()> <SHA3 of it> <hash|->" | err
+//	dnbig <shape> <n>  PruneBelowVersion over ONE large dead-node record: n entries (valid / cut in half / one entry
+//	                   damaged at the end), one n-character key, an unknown field of n nested arrays -> "ok left=<1|->"
+//	Every decode is timed: it has to finish within max(50 ms, 1 s per MB of input) (minimum of two runs; a case that
+//	fails only this is re-run alone by the harness).
 //	dnenc <node encodings,..|->   RecordDeadNodes(CreateNode(each), 7) on a fresh PNodeDB; the record bytes are read back
 //	                   from the fake's dead_nodes column family -> "ok <hex record>" (deadNodes.MarshalMsg)
 //	dndec <hex keys,..|-> <rec>...   plants the listed keys as node entries, the records under rounds 1..n (a record
@@ -35,6 +42,7 @@ import (
 	"os"
 	"os/exec"
 	"sort"
+	"strconv"
 	"strings"
 	"time"
 
@@ -59,6 +67,126 @@ func guardT(d time.Duration, f func() string) string {
 	case <-time.After(d):
 		return "timeout"
 	}
+}
+
+// checkPrompt: f (one decode of inputLen bytes) has to finish within max(50 ms, 1 s per MB);
+// the minimum of up to three runs counts (machine load).
+func checkPrompt(inputLen int, f func(), fail func(string, ...interface{})) {
+	bound := time.Duration(inputLen) * time.Second / 1000000 // 1 s per MB: a linear decoder needs milliseconds
+	if bound < 50*time.Millisecond {
+		bound = 50 * time.Millisecond
+	}
+	best := time.Duration(1 << 62)
+	for k := 0; k < 3; k++ {
+		start := time.Now()
+		guard(func() string { f(); return "" })
+		if d := time.Since(start); d < best {
+			best = d
+		}
+		if best <= bound {
+			return
+		}
+	}
+	fail("decode did not terminate promptly: %s for %d bytes of input (bound %s)", best.Round(time.Millisecond), inputLen, bound)
+}
+
+func patternBytes(n int) []byte {
+	b := make([]byte, n)
+	for i := range b {
+		b[i] = byte((i*7 + 3) % 256)
+	}
+	return b
+}
+
+// bigNodeInput builds a large stored-node input from (shape, n); Driver/Codec.lean builds the same bytes.
+func bigNodeInput(shape string, n int) []byte {
+	tr := append(append([]byte{}, le64b(1)...), le64b(2)...)
+	rep := func(c byte) []byte { return bytes.Repeat([]byte{c}, n) }
+	cat := func(t byte, parts ...[]byte) []byte {
+		out := append([]byte{t}, tr...)
+		for _, p := range parts {
+			out = append(out, p...)
+		}
+		return out
+	}
+	switch shape {
+	case "leafval":
+		return cat(2, []byte("ab:cd:"), patternBytes(n))
+	case "leafseps":
+		return cat(2, []byte("ab:cd:"), rep(':'))
+	case "leafpath":
+		return cat(2, []byte("ab:"), rep('a'), []byte(":v"))
+	case "leafprefix":
+		return cat(2, rep('b'), []byte(":cd:v"))
+	case "fullval":
+		return cat(4, bytes.Repeat([]byte{':'}, 16), patternBytes(n))
+	case "fullseps":
+		return cat(4, rep(':'))
+	case "fullhex":
+		return cat(4, rep('a'), bytes.Repeat([]byte{':'}, 16))
+	case "extkey":
+		return cat(8, []byte("ab:"), patternBytes(n))
+	case "extpath":
+		return cat(8, rep('a'), []byte(":"), bytes.Repeat([]byte{9}, 32))
+	case "nosep":
+		return cat(2, rep('a'))
+	default: // "val"
+		return cat(1, patternBytes(n))
+	}
+}
+
+func bigKey(i int) string {
+	var b [8]byte
+	binary.BigEndian.PutUint64(b[:], uint64(i)*2654435761)
+	return strings.Repeat(hex.EncodeToString(b[:]), 4)
+}
+
+// bigRecord builds a large dead-node record from (shape, n); Driver/Codec.lean builds the same bytes.
+func bigRecord(shape string, n int) []byte {
+	hdr := func(k int) []byte {
+		return append(append([]byte{0x81}, msgpStr("Nodes")...), 0xdf, byte(k>>24), byte(k>>16), byte(k>>8), byte(k))
+	}
+	entries := func(k int) []byte {
+		var b []byte
+		for i := 0; i < k; i++ {
+			b = append(append(b, 0xd9, 64), bigKey(i)...)
+			b = append(b, 0xc3)
+		}
+		return b
+	}
+	switch shape {
+	case "half":
+		e := entries(n)
+		return append(hdr(n), e[:len(e)/2]...)
+	case "badlast":
+		e := entries(n)
+		e[len(e)-1] = 0x01
+		return append(hdr(n), e...)
+	case "longkey":
+		b := append(hdr(1), 0xdb, byte(n>>24), byte(n>>16), byte(n>>8), byte(n))
+		return append(append(b, bytes.Repeat([]byte{'a'}, n)...), 0xc3)
+	case "nested":
+		b := append([]byte{0x82, 0xa1, 'x'}, bytes.Repeat([]byte{0x91}, n)...)
+		b = append(b, 0xc0)
+		return append(append(append(b, msgpStr("Nodes")...), 0x81), append(msgpStr("ab"), 0xc3)...)
+	default: // "valid"
+		return append(hdr(n), entries(n)...)
+	}
+}
+
+// decodeOnceBig: as decodeOnce, printing length and SHA3 of the re-encoding instead of the bytes.
+func decodeOnceBig(b []byte) string {
+	n, err := util.CreateNode(bytes.NewReader(b))
+	if err != nil {
+		return "err"
+	}
+	enc := n.Encode()
+	h := n.GetHashBytes()
+	hs := "-"
+	if len(h) > 0 {
+		hs = hx(h)
+	}
+	return fmt.Sprintf("ok %d %s %s", len(enc), hx(sha3sum(enc)), hs)
 }
 
 func decodeOnce(b []byte) string {
@@ -88,9 +216,53 @@ func runC15Mpt(ops []string) CaseResult {
 		f := strings.Fields(op)
 		var out string
 		switch f[0] {
+		case "decbig":
+			n, _ := strconv.Atoi(f[2])
+			b := bigNodeInput(f[1], n)
+			out = guardT(30*time.Second, func() string { return decodeOnceBig(b) })
+			if out == "panic" || out == "timeout" {
+				fail("CreateNode / Encode / GetHashBytes on %d bytes (%s): %s", len(b), f[1], out)
+			} else {
+				checkPrompt(len(b), func() { decodeOnceBig(b) }, fail)
+				if out != "err" {
+					accepted++
+				} else {
+					rejected++
+				}
+			}
+			tags["large-input"] = true
+		case "dnbig":
+			n, _ := strconv.Atoi(f[2])
+			rec := bigRecord(f[1], n)
+			run := func() string {
+				dir := freshDir("c15dnbig")
+				defer grocksdb.FakeReset(dir)
+				db, err := util.NewPNodeDB(dir, "")
+				if err != nil {
+					panic(err)
+				}
+				grocksdb.FakeRawPutCF(dir, "dead_nodes", []byte{0, 0, 0, 0, 0, 0, 0, 1}, rec)
+				if err := db.PruneBelowVersion(context.Background(), 2); err != nil {
+					return "err"
+				}
+				if len(grocksdb.FakeSnapshot(dir, "dead_nodes")) == 0 {
+					return "ok left=-"
+				}
+				return "ok left=1"
+			}
+			out = guardT(30*time.Second, run)
+			if !strings.HasPrefix(out, "ok") {
+				fail("PruneBelowVersion over a %d-byte dead-node record (%s): %s", len(rec), f[1], out)
+			} else {
+				checkPrompt(len(rec), func() { run() }, fail)
+			}
+			tags["large-input"] = true
 		case "dec":
 			b := unhx(f[1])
 			out = guardT(time.Second, func() string { return decodeOnce(append([]byte(nil), b...)) })
+			if out != "panic" && out != "timeout" {
+				checkPrompt(len(b), func() { decodeOnce(append([]byte(nil), b...)) }, fail)
+			}
 			switch {
 			case out == "panic":
 				fail("CreateNode / Encode / GetHashBytes panicked on %d bytes", len(b))
@@ -357,6 +529,25 @@ func genC15Mpt(r *rand.Rand, tier string, idx int) []string {
 	}
 	if idx%8 == 5 {
 		return genDeadNodesCase(r)
+	}
+	if idx%40 == 17 {
+		// LARGE inputs (10^5 .. 10^6 bytes), valid and malformed
+		sizes := []int{100000, 300000, 1000000}
+		nodeShapes := []string{"leafval", "leafseps", "leafpath", "leafprefix", "fullval", "fullseps", "fullhex", "extkey", "extpath", "nosep", "val"}
+		recShapes := []string{"valid", "half", "badlast", "longkey", "nested"}
+		var ops []string
+		for k := 0; k < 5; k++ {
+			ops = append(ops, fmt.Sprintf("decbig %s %d", nodeShapes[r.Intn(len(nodeShapes))], sizes[r.Intn(3)]))
+		}
+		for k := 0; k < 2; k++ {
+			sh := recShapes[r.Intn(len(recShapes))]
+			n := []int{2000, 5000, 10000}[r.Intn(3)]
+			if sh == "longkey" || sh == "nested" {
+				n = sizes[r.Intn(3)]
+			}
+			ops = append(ops, fmt.Sprintf("dnbig %s %d", sh, n))
+		}
+		return ops
 	}
 	// a random content
 	alpha := pathAlphabets[r.Intn(len(pathAlphabets))]
@@ -822,7 +1013,7 @@ func init() {
 	}
 	register(&Suite{
 		Name: "c15mpt",
-		Rule: "malformed stream over real stored-node encodings of random canonical tries (truncation at every length, separators removed/doubled, all 16 type codes and high bits, version/origin bytes dropped or inflated, splices between node kinds, child hex fields of odd / > 64 / short length, non-hex, upper case, random bytes) through CreateNode+Encode+GetHashBytes; every 25th case plants damaged dead-node records (truncated, inflated map headers, non-hex keys, nested unknown fields, random bytes) and runs PNodeDB.PruneBelowVersion; non-trivial = a case with both accepted and rejected inputs",
+		Rule: "malformed stream over real stored-node encodings of random canonical tries (truncation at every length, separators removed/doubled, all 16 type codes and high bits, version/origin bytes dropped or inflated, splices between node kinds, child hex fields of odd / > 64 / short length, non-hex, upper case, random bytes) through CreateNode+Encode+GetHashBytes; every 25th case plants damaged dead-node records (truncated, inflated map headers, non-hex keys, nested unknown fields, random bytes) and runs PNodeDB.PruneBelowVersion; every 40th case: inputs of 10^5..10^6 bytes (n-byte values, n separators, n-character paths / child fields / keys, dead-node records of 2000..10000 entries, an n-character key, n nested arrays), every decode timed against max(50 ms, 1 s per MB); non-trivial = a case with both accepted and rejected inputs",
 		Gen:  genC15Mpt,
 		Run:  runC15Mpt,
 		Exhaustive: func(tier string, emit func([]string)) {
